@@ -223,6 +223,9 @@ class MinFlowDecomp(pathmodel.AbstractPathModelDAG): # Note that we inherit from
             This overloads the `solve()` method from `AbstractPathModelDAG` class.
         """
         self.solve_time_start = time.perf_counter()
+        # A previous successful solve() must not make this run look solved if it ends without a solution
+        self._is_solved = False
+        self._solution = None
 
         if self.optimization_options.get("optimize_with_guessed_weights", MinFlowDecomp.optimize_with_given_weights):            
             self._solve_with_given_weights()
